@@ -138,10 +138,68 @@ def inspect(chk, out):
             chk.fail("the views contain exactly the bins holding more than one object at the last requested age", cfg, dict(listed=L, expected=want))
 
 
+def schedule_block(chk):
+    """schedules of several ages in ANY order: the summary views describe the LAST REQUESTED age (compared with a construction that requests that
+    age alone), and per-age BH targets that are reachable at their own age never make the constructor raise"""
+    rng = chk.rng
+    n = 3 if chk.tier == "quick" else 16
+    base = []
+    for k in range(n):
+        cfg = FR.gen_config(rng, escape=False, kicks=False, cls="EvolvedMF", ntout=3)
+        ages = sorted([float(rng.choice([30.0, 100.0, 400.0])), float(rng.choice([1500.0, 3000.0, 6000.0])), float(rng.choice([9000.0, 12000.0, 13500.0]))])
+        cfg["tout"] = ages[::-1] if k % 2 == 0 else [ages[1], ages[2], ages[0]]      # the last requested age is never the oldest one
+        cfg["BH_ret_dyn"] = 1.0
+        cfg.pop("imf_ext", None)
+        base.append(cfg)
+    alone = [dict(c, tout=[c["tout"][-1]]) for c in base]
+    outs = FR.run_many(base + alone)
+    chk.evaluations += len(outs)
+    targets = []
+    for cfg, ob, oa in zip(base, outs[:n], outs[n:]):
+        if "error" in ob or "error" in oa or not ob["converged"] or not oa["converged"]:
+            chk.count("schedule block: constructions that raised / did not converge (reported by the main block)")
+            targets.append(None)
+            continue
+        chk.count("unsorted schedules compared with the last requested age alone")
+        chk.note_distinct(cfg)
+        thr = 10 * oa["Nmin"]
+        rowN = np.concatenate([oa["Ns"][-1]] + [x[-1] for x in oa["Nr"]])
+        rowM = np.concatenate([oa["Ms"][-1]] + [x[-1] for x in oa["Mr"]])
+        sure_in, sure_out = rowN > 1.02 * thr + 0.2, rowN < 0.98 * thr - 0.2
+        v = ob["views"]
+        allN = np.concatenate([ob["Ns"], np.concatenate(ob["Nr"], axis=1)], axis=1)      # every row of the schedule
+        want_lo, want_hi = int(np.sum(sure_in)), int(np.sum(~sure_out))
+        L = len(v["M"])
+        tot = float(np.sum(rowM[rowN > thr]))
+        if not (want_lo <= L <= want_hi) or abs(float(np.sum(v["M"])) - tot) > 5e-3 * tot + 3.0 * float(np.max(rowM / np.maximum(rowN, 1e-300) * (rowN > 0))):
+            chk.fail("the views contain exactly the bins holding more than one object at the last requested age", cfg,
+                     dict(last_requested_age=cfg["tout"][-1], listed=L, expected_between=[want_lo, want_hi], listed_mass=float(np.sum(v["M"])),
+                          mass_of_populated_bins_at_that_age_alone=tot, heaviest_listed_star_mean=float(v["m"][v["nms"] - 1]) if v["nms"] else None))
+        # per-age BH targets: 0.8 of the BH mass fraction formed at that age itself
+        fb = []
+        for row in range(len(cfg["tout"])):
+            Mbh = float(ob["Mr"][2][row].sum())
+            Mtot = float(ob["Ms"][row].sum() + sum(x[row].sum() for x in ob["Mr"]))
+            fb.append(0.8 * Mbh / Mtot if Mtot > 0 else 0.0)
+        c2 = dict(cfg, cls="EvolvedMFWithBH", f_BH=fb, strict_BH_target=True)
+        c2.pop("BH_ret_dyn", None)
+        targets.append(c2)
+    t2 = [c for c in targets if c is not None]
+    outs2 = FR.run_many(t2) if t2 else []
+    chk.evaluations += len(outs2)
+    for c2, o2 in zip(t2, outs2):
+        chk.count("unsorted schedules with per-age BH targets below the fraction formed at their own age (strict)")
+        if "error" in o2:
+            chk.fail("construction of a valid configuration returns without raising", c2, dict(error=o2["error"], site=o2["site"], msg=o2["msg"]),
+                     error=o2["error"], site=o2["site"], schedule_block=True)
+
+
 def classify(f):
     if f["clause"] != "construction of a valid configuration returns without raising":
         if f["clause"] == "star mean masses are finite" and f.get("empty_star_bin"):
             return "empty_star_bin_mean_nan"
+        return None
+    if f.get("schedule_block"):
         return None
     if f.get("in_determine_index") and f.get("in_derivs") and f.get("unbinned_mass") is not None and f["unbinned_mass"] < 1.45:
         return "wd_peak_on_upper_edge"        # a white-dwarf mass (below the NS mass) on / above the top WD edge; a BH mass is not covered
@@ -161,6 +219,7 @@ def run(chk):
         inspect(chk, out)
     chk.evaluations += len(outs)
     chk.samples.append(dict(cfg=cfgs[0]))
+    schedule_block(chk)
     chk.trusted += ["harness/props/C04.py + fullrun.py (configuration generator over the documented domain)",
                     "NOT modelled: dopri5 itself (its evaluation points, its first trial step far beyond the last age); the level claimed for the "
                     "pipeline part is exploration, the proof covers the views only"]
